@@ -124,6 +124,9 @@ func runLookupCase(t *Tracer, m *Meta, r *rand.Rand, c *TrieCase, lo lookupOpts)
 				if sl, err := ParseSlim(b); err == nil {
 					if d, err := Decode(sl); err == nil {
 						t.Emit(TableEv(d))
+						if len(c.Keys) <= 700 {
+							t.Emit(ProtoEv(sl))
+						}
 						m.class(shapeClass(d))
 					} else {
 						t.Emit(Ev{"ev": "tableerr", "msg": err.Error()})
@@ -245,7 +248,7 @@ func pickOpts(r *rand.Rand, prop string, k int) [][4]int {
 	return out
 }
 
-var encPool = []string{"i32", "i32", "i64", "i16", "i8", "s16", "b4", "te", "none", "int", "b1"}
+var encPool = []string{"i32", "i32", "i64", "i16", "i8", "s16", "s16", "b4", "te", "none", "none", "int", "b1"}
 
 func pickEnc(r *rand.Rand, prop string) string {
 	switch prop {
@@ -286,6 +289,9 @@ func mkVals(r *rand.Rand, prop, enc string, n int) [][]byte {
 	}
 	if prop == "C14" && r.Intn(2) == 0 {
 		return valsFullRange(r, enc, n)
+	}
+	if enc == "s16" && r.Intn(2) == 0 {
+		return valsSmallStrings(r, n)
 	}
 	base := int64(r.Intn(1000)) - 500
 	switch r.Intn(4) {
@@ -330,6 +336,9 @@ func genLookup(t *Tracer, m *Meta, prop, tier string, seed int64) {
 						vals = valsFromPattern(enc, n, uint64(r.Intn(1<<uint(n-1))), 0)
 					} else {
 						vals = valsFromPattern(enc, n, 0, 0)
+					}
+					if enc == "s16" && r.Intn(3) != 0 {
+						vals = valsSmallStrings(r, n)
 					}
 				}
 				c := &TrieCase{Keys: keys, Enc: enc, Vals: vals, Opt4: o4}
